@@ -1,15 +1,34 @@
 (* C09 - Written files are well-formed MTBL v2 as judged by an independent decoder.
-   FULL STATEMENT (C09_statement below): the extracted independent decoder
-   spec/Parse.v accepts every file of the model writer and validates every clause.
-   PROVED so far: the file layout (contiguous frames from the initial offset, each
-   = canonical varint length ++ CRC32C of the stored bytes ++ stored bytes; index
-   frame; 512-byte zero-padded trailer ending in the magic) and the separator law.
-   NOT yet proved (validated on every implementation file by running the extracted
-   decoder and wf_validate): the block-internal clauses (restart cadence, maximal
-   prefix elision), the index entries, the size policy. *)
+   PROVED:
+   T09b_layout_partial - the file is data frames ++ index frame ++ 512-byte trailer, a frame
+     being the canonical varint of the stored length, the CRC-32C of the stored bytes and
+     the stored bytes; the trailer ends with the magic.
+   T09c_separator - a <= sep a b < b and |sep a b| <= |a|.
+   T09d_file_structure (from the ghost-state invariant of proofs/TableRT.v) - for every
+     configuration and add sequence the file decomposes into blocks such that
+       . block i starts at initial offset + the sizes of the frames before it, and the stored
+         bytes are the compression of the block's raw bytes;
+       . the raw bytes are: the entries, each encoded as varint32(shared) varint32(unshared)
+         varint32(|value|) key-suffix value, then the 32-bit offsets of the restart entries,
+         then their count; restart points are exactly the entries 0, I, 2I, ... (I = restart
+         interval), an entry at a restart point shares nothing and every other entry elides
+         the longest common prefix with its predecessor; keys strictly increase;
+       . a block with more than one entry is smaller than block_size, and a block is followed
+         by another only if that one's first entry (15 bytes allowed for its header) would
+         have brought it to block_size;
+       . the index block is built the same way and holds, per data block, the key
+         last-key-of-block <= k < first-key-of-next-block and the canonical varint64 of the
+         block's start offset;
+       . the entries of the blocks, in order, are the entries whose add succeeded.
+   The FULL STATEMENT through the independent decoder (C09_statement: spec/Parse.v accepts
+   the file and wf_validate passes) is not proved as a theorem; the extracted decoder and
+   validator judge every file the REAL writer produces (engine wr), which is also where the
+   model is tied to writer.c / block_builder.c byte for byte.  Blocks of 4 GiB and more
+   (64-bit restart arrays) are outside T09d (hypothesis entry_fits). *)
 From Coq Require Import NArith ZArith List Lia.
 From Mtbl Require Import gen.Consts model.Bytes model.Codec model.Order model.Block model.Crc model.Writer
-  spec.Leb128 spec.Parse proofs.BytesLemmas proofs.CodecProofs proofs.OrderProofs proofs.WriterProofs proofs.MetaProofs.
+  spec.Leb128 spec.Parse model.Reader proofs.BytesLemmas proofs.CodecProofs proofs.OrderProofs proofs.WriterProofs proofs.MetaProofs
+  proofs.BlockRT proofs.TableRT.
 Local Open Scope N_scope.
 
 Section C09.
@@ -63,6 +82,64 @@ Theorem T09c_separator : forall a b, wf_bytes a -> wf_bytes b -> bcmp a b = Lt -
   bcmp a (sep a b) <> Gt /\ bcmp (sep a b) b = Lt /\ len (sep a b) <= len a.
 Proof. exact sep_between. Qed.
 Print Assumptions T09c_separator.
+
+(* T09d: the structure of every written file *)
+Definition block_format (I : N) (ps : list pentry) (ridx : list nat) (raw : bytes) : Prop :=
+  raw = enc_all ps ++ concat (map fixed_encode32 (map (offset_of ps) ridx)) ++ fixed_encode32 (N.of_nat (length ridx)) /\
+  (forall j, (j < length ps)%nat -> pe_off (nth j ps dummy_pe) = offset_of ps j) /\
+  (forall i, (i < length ridx)%nat -> nth i ridx 0%nat = (i * N.to_nat I)%nat) /\
+  (forall j, (j < length ps)%nat ->
+     pe_shared (nth j ps dummy_pe) =
+     if (j mod N.to_nat I =? 0)%nat then 0
+     else lcp (pe_key (nth (j - 1) ps dummy_pe)) (pe_key (nth j ps dummy_pe))).
+
+Lemma bbinv_block_format b ps ridx : bbinv b ps ridx -> len (bb_finish b) < 2 ^ 32 ->
+  block_format (bb_interval b) ps ridx (bb_finish b).
+Proof.
+  intros Hb Hsz. split; [apply bb_finish_bytes; assumption|]. split; [|split].
+  - intros j Hj. rewrite (legal_off ps 0 [] j (bi_legal _ _ _ Hb) Hj). apply N.add_0_l.
+  - exact (bi_cad_ridx _ _ _ Hb).
+  - exact (bi_share _ _ _ Hb).
+Qed.
+
+Section C09d.
+Variable compress_default : N -> bytes -> res bytes.
+Variable compress_level : N -> Z -> bytes -> res bytes.
+
+Theorem T09d_file_structure : forall o off0 ops w' rs,
+  1 <= wo_interval o -> Forall (entry_fits o) ops ->
+  writer_session compress_default compress_level o off0 ops = Ok (w', rs) ->
+  m_bytes_index_block (w_m w') < 2 ^ 32 ->
+  exists (ds : list dblk) (idx_ps : list pentry) (idx_ridx : list nat) (idx_raw : bytes),
+    (* framing *)
+    writer_bytes w' = concat (map frame (map d_stored ds)) ++ frame idx_raw ++ metadata_write (w_m w') /\
+    offs_ok off0 ds /\ m_index_block_offset (w_m w') = off0 + len (concat (map frame (map d_stored ds))) /\
+    (* every data block *)
+    Forall (fun d => d_ps d <> [] /\ sorted_ps (d_ps d) /\
+                     compress_block compress_default compress_level o (d_raw d) = Ok (d_stored d) /\
+                     block_format (wo_interval o) (d_ps d) (d_ridx d) (d_raw d) /\
+                     ((2 <= length (d_ps d))%nat -> len (d_raw d) < wo_block_size o) /\
+                     bcmp (lastkey (d_ps d)) (d_sep d) <> Gt) ds /\
+    (* consecutive blocks: separator below the next first key; the cut rule *)
+    fences_ok (wo_block_size o) ds None /\
+    (* the index block *)
+    block_format (wo_interval o) idx_ps idx_ridx idx_raw /\
+    Forall2 (fun p d => pe_key p = d_sep d /\ pe_val p = varint_encode64 (d_off d)) idx_ps ds /\
+    (* content *)
+    all_entries ds [] = kept ops rs.
+Proof.
+  intros o off0 ops w' rs Hi Hfit Hsess Hidx.
+  destruct (written_structure compress_default compress_level o off0 ops w' rs Hi Hfit Hsess)
+    as (ds & ib & ips & iridx & Hbytes & Hblocks & Hoffs & Hfences & Hib & Hibi & Hrel & Hibo & Hibytes & Hent).
+  exists ds, ips, iridx, (bb_finish ib). repeat match goal with |- _ /\ _ => split end; try assumption.
+  - eapply Forall_impl; [|exact Hblocks]. intros d (H1 & H2 & _ & _ & H5 & H6 & (b & Hb & Hraw & Hbi) & Hsz & Hs1).
+    repeat match goal with |- _ /\ _ => split end; try assumption.
+    rewrite Hraw, <- Hbi. apply bbinv_block_format; [exact Hb|rewrite <- Hraw; exact Hsz].
+  - rewrite <- Hibi. apply bbinv_block_format; [exact Hib|].
+    rewrite Hibytes in Hidx. unfold frame in Hidx. rewrite !len_app in Hidx. lia.
+Qed.
+End C09d.
+Print Assumptions T09d_file_structure.
 
 (* the decoder and the validator do accept a concrete multi-block model file (non-vacuity
    of C09_statement's conclusion; evaluated on the model writer with compression NONE) *)
